@@ -19,6 +19,7 @@ from .lib import (op_place, op_local, op_const, place_local, place_proj, last_se
 
 PARSER = "cairo_lang_parser::parser::Parser"
 EOF_KIND = "TerminalEndOfFile"
+TOPK = "?"
 BASE_CONSUMERS = ("take_raw", "advance")
 
 
@@ -40,8 +41,11 @@ class Finding:
 class ParserAI:
     SUBJECT = PARSER
 
-    def __init__(self, F, kind_names, max_states=6000, eof_pop_panics=False):
+    def __init__(self, F, kind_names, max_states=6000, eof_pop_panics=False, topk=False):
         self.F = F
+        # topk: the next terminal is unknown (kind "?") and calls of routines that receive the parser are opaque: the
+        # exploration covers every path of one routine and yields the abstract values it can return (R9.9 restarts)
+        self.topk = topk
         self.eof_pop_panics = eof_pop_panics   # popping the token window at end of file counts as a panic (C09 R9.10)
         self.names = kind_names
         self.kidx = {n: i for i, n in enumerate(kind_names)}
@@ -101,9 +105,11 @@ class ParserAI:
         self.memo[key] = res
         return res
 
-    def from_block(self, f, bb, k, subst=(), args=()):
+    def from_block(self, f, bb, k, subst=(), args=(), extra_env=None):
         """Exploration started at block bb (a loop header) with only the argument facts known."""
         env0 = {i: av for i, av in enumerate(args, start=1) if av is not None}
+        if extra_env:
+            env0.update(extra_env)
         key = (f.path + "@bb%d" % bb, k, subst, args)
         self.stack.append(key)
         try:
@@ -125,7 +131,8 @@ class ParserAI:
                     if a[0] == sk:
                         # the path came back to a state it has been in: nothing was consumed and nothing the
                         # interpreter tracks changed, so it can go round forever
-                        self.cycles.setdefault((f.path, k0, subst, key[3]), (_line(f, bb), k, trail))
+                        if not self.topk:
+                            self.cycles.setdefault((f.path, k0, subst, key[3]), (_line(f, bb), k, trail))
                         break
                     a = a[1]
                 continue
@@ -197,7 +204,7 @@ class ParserAI:
                 continue
             elif isinstance(e, list) and e[0] == "f":
                 if av[0] == "term":
-                    av = ("k", k) if e[2] == "kind" else None
+                    av = ("k", k) if e[2] == "kind" and k != TOPK else None
                 elif av[0] == "v":
                     av = av[2] if (len(av) > 2 and e[1] == 0) else None
                 elif av[0] == "tup":
@@ -349,6 +356,9 @@ class ParserAI:
         path = c.path
         gargs = [subst_apply(subst, g) for g in c.gargs]
         argavs = [self._op_av(f, a, env, k, subst) for a in c.args]
+        if self.topk and (callee.get("r") == "ptr" or last_seg(path) in ("call", "call_once", "call_mut")) and \
+                any(op_local(a) is not None and self.SUBJECT in (f.local_ty(op_local(a)) or "") for a in c.args):
+            return [ret(None)]
         if callee.get("r") == "ptr":
             fav = self._op_av(f, callee.get("op"), env, k, subst)
             if fav is None or fav[0] != "fn":
@@ -391,6 +401,8 @@ class ParserAI:
             n_ = argavs[0][1][1]
             return [ret(("b", int(n_ == 0)) if name == "is_empty" else ("i", n_))]
         is_parser_method = path.startswith(PARSER + "::")
+        if self.topk and is_parser_method and (name == "take" or name in BASE_CONSUMERS or name == "unglue"):
+            return [ret(None)]
         if is_parser_method and name == "take":
             # take::<T>() = take_raw + assert(kind == T::KIND): that the assertion holds is rule R9.2's business
             if k == EOF_KIND:
@@ -571,6 +583,8 @@ class ParserAI:
         takes_parser = any(op_local(a) is not None and self.SUBJECT in (f.local_ty(op_local(a)) or "") for a in c.args)
         kind_arg = any(av is not None and (av[0] == "k" or (av[0] == "ref" and av[1] is not None and av[1][0] == "k")) for av in argavs)
         fn_arg = any(av is not None and av[0] == "fn" for av in argavs)
+        if self.topk and takes_parser:
+            return [ret(None)]
         if self.analysable(path) and (takes_parser or kind_arg or (fn_arg and is_parser_method)):
             return self._enter(path, argavs, gargs, k, ret)
         if takes_parser:
@@ -694,7 +708,7 @@ def needs_ctx(F, f):
     return False
 
 
-def static_av(g, op, ctx, depth=0):
+def static_av(g, op, ctx, depth=0, consts=False):
     """Abstract value of a call argument that is fixed at the call site: a function item, a closure, a struct
     holding one, or a parameter of the caller (taken from the caller's own context)."""
     if depth > 10:
@@ -703,6 +717,8 @@ def static_av(g, op, ctx, depth=0):
     if k is not None:
         if k[0] == "fn" and isinstance(k[1], dict):
             return ("fn", k[1]["path"], tuple(subst_apply(ctx[0], x) for x in k[1].get("args", [])))
+        if consts and k[0] == "int" and k[1] in (0, 1) and len(op) > 3 and op[3] == "bool":
+            return ("b", k[1])
         return None
     pl = op_place(op)
     if pl is None:
@@ -711,7 +727,7 @@ def static_av(g, op, ctx, depth=0):
     pj = place_proj(pl)
     if pj:
         if len(pj) == 1 and isinstance(pj[0], list) and pj[0][0] == "f" and pj[0][1] == 0:
-            base = static_av(g, ["c", l], ctx, depth + 1)
+            base = static_av(g, ["c", l], ctx, depth + 1, consts)
             if base is not None and base[0] == "v" and len(base) > 2:
                 return base[2]
         return None
@@ -724,11 +740,11 @@ def static_av(g, op, ctx, depth=0):
     if rv[0] == "agg" and rv[1] == "closure":
         return ("fn", rv[2], ())
     if rv[0] == "agg" and rv[1] == "adt" and rv[3]:
-        return ("v", rv[6], static_av(g, rv[3][0], ctx, depth + 1))
+        return ("v", rv[6], static_av(g, rv[3][0], ctx, depth + 1, consts))
     o = rv[1] if rv[0] == "use" else (rv[2] if rv[0] == "cast" else None)
     if o is None:
         return None
-    return static_av(g, o, ctx, depth + 1)
+    return static_av(g, o, ctx, depth + 1, consts)
 
 
 def compute_contexts(F, pf):
